@@ -73,7 +73,7 @@ def answerRecord (toks : List String) : String :=
   match k with
   | [] => "PANIC"
   | b :: _ =>
-    if b ≠ 0x62 then "foreign" else
+    if b ≠ 0x62 then "ok foreign" else
     match Run.decodeRecFull k v with
     | .ok f => s!"ok {Csv.hashHex f.r.hash} {f.version} {f.r.height} {f.r.status} {f.ntx} {f.r.file} {f.r.off}"
     | .err _ => "eof"
